@@ -360,7 +360,14 @@ func TestVerifBigIntBridge(t *testing.T) {
 					t.Fatalf("GobDecode(%q) on %s: error mismatch", txt, zs)
 				}
 				checkDecoded(fmt.Sprintf("GobDecode(%q) on %s", txt, zs), z, w)
-				cases += 4
+				z, w = mk(zs, rep == 1), mb(zs)
+				_, e1 = fmt.Sscan(txt, z)
+				_, e2 = fmt.Sscan(txt, w)
+				if (e1 == nil) != (e2 == nil) {
+					t.Fatalf("Sscan(%q) on %s: error mismatch", txt, zs)
+				}
+				checkDecoded(fmt.Sprintf("Scan(%q) on %s", txt, zs), z, w)
+				cases += 5
 			}
 		}
 	}
